@@ -48,10 +48,14 @@ CHEAP_EPS = {1: 1e-5, 2: 3e-3, 3: 0.03, 4: 0.05, 5: 0.1}
 @st.composite
 def eps_values(draw, n, m, cheap=True, upto=None):
     lo = max(eps_min(n, m), CHEAP_EPS[n] if cheap else 0.0)
-    if n == 1 and draw(st.integers(0, 9)) == 0:
-        # exact dyadic eps: 1-D interval lengths are dyadic as long as no slope shift occurs,
-        # so equality D == eps is reachable (tie class for the '<' of the stop rule)
-        return float(2.0 ** -draw(st.integers(1, 16)))
+    if draw(st.integers(0, 9)) == 0:
+        # tie class: eps equal to a Hoelder length the search really produces.  The first subdivided
+        # interval always has x-length 1/2, later ones are dyadic while no slope shift occurs, and the
+        # stored length is pow(dx, 1/N): drawing eps from the same expression makes D == eps reachable.
+        j = draw(st.sampled_from([1, 1, 1, 2, 2, 3, 4, 6]))
+        e = pow(2.0 ** -j, 1.0 / n)
+        if e >= eps_min(n, m):
+            return float(e)
     if upto is None:
         # mostly small eps (long runs), sometimes up to 2.0 (eps >= 1 is a stated edge class)
         upto = draw(st.sampled_from([2.0, 0.1, 0.02, 0.02]))
